@@ -319,7 +319,14 @@ def main(argv):
                 if fn.endswith(".req"):
                     reqs += [l for l in open(os.path.join(cdir, fn)).read().split("\n") if l and not l.startswith("#")]
         ncorpus = len(reqs)
-        rc, out = run([HARNESS_BIN, "gen", pid, tier, str(seed)], timeout=3600)
+        # some generators consult the real code (filters, external-codec columns): a change that makes
+        # it spin or allocate without bound must end the run with a violation, not hang the check
+        try:
+            gp = subprocess.run([HARNESS_BIN, "gen", pid, tier, str(seed)], stdout=subprocess.PIPE, stderr=subprocess.STDOUT,
+                                text=True, timeout=1200 if tier == "thorough" else 600, env=ENV, preexec_fn=_limits)
+            rc, out = gp.returncode, gp.stdout
+        except subprocess.TimeoutExpired as e:
+            rc, out = 124, "generator timed out (it calls the real code, which did not return)\n" + (e.stdout or "")[-1500:] if isinstance(e.stdout, str) else "generator timed out"
         if rc != 0:
             log("generator failed", out[-2000:])
             print(f"VIOLATION property={pid} replay={write_replay(pid, 'gen', '', None, None, {'log': out[-2000:]})} no-failing-input-found")
